@@ -29,7 +29,7 @@ pub fn def() -> PropDef {
         id: "C15",
         run,
         quick_runs: 12000,
-        thorough_runs: 300_000,
+        thorough_runs: 1_500_000,
         level: "exploration",
         rule: "a live daemon with Bitmap = BitmapMmapRegion: 1..=4 page-aligned regions whose pages share log bytes, a log memfd mapped at a non-zero page-aligned offset with guard pages before and after the window and a size from {needed-1, needed, needed+1, needed+100, one page}; SET_LOG_BASE must be accepted iff the log covers the highest guest page; then index%3: 0 = one task performs writes (GuestMemory::write_slice and Bitmap::mark_dirty with offsets/lengths crossing 0, 1 and many page and region boundaries, zero and huge lengths, plus a used-ring update through a kicked vring) [pure-input part, weakest]; 1 = 2..=16 writer tasks on pages of the same log bytes interleaved at the lock/fetch_or sync points, optionally racing a second SET_LOG_BASE; 2 = histories mixing SET_LOG_BASE with ADD_MEM_REG / SET_MEM_TABLE followed by writes into the new regions; oracle: independent page set (bit n = byte n/8, bit n%8) compared with the log file bytes exactly, guard bytes untouched; non-trivial = at least one write was performed",
         assumptions: ASSUME,
